@@ -9,6 +9,7 @@ from typing import (
     Any,
     Collection,
     TypeVar,
+    get_origin,
 )
 
 from .types import (
@@ -17,6 +18,7 @@ from .types import (
     Union,
     clsstring,
     get_args,
+    instancecheck,
     normalize_type,
     subclasscheck,
     typeorder,
@@ -28,6 +30,9 @@ _current = count()
 def generate_checking_code(typ):
     if hasattr(typ, "codegen"):
         return typ.codegen()
+    elif not isinstance(typ, type) and get_origin(typ) is not None:
+        # type[A] and the like, which isinstance refuses
+        return CodeGen("{ic}({arg}, {this})", ic=instancecheck, this=typ)
     else:
         return CodeGen("isinstance({arg}, {this})", this=typ)
 
@@ -131,7 +136,7 @@ class DependentType(type):
             return False
 
     def __instancecheck__(self, other):
-        return isinstance(other, self.bound) and self.check(other)
+        return instancecheck(other, self.bound) and self.check(other)
 
     def __lt__(self, other):
         return False
